@@ -323,8 +323,11 @@ class Check:
                 known_hits.append((f, r))
             else:
                 violations.append(r)
-        # bounded stand-ins that found a concrete failing input
+        # bounded stand-ins that found a concrete failing input; one that could not be executed at all leaves its part of the
+        # property undecided (it must not pass silently)
         for r in bounded:
+            if r['verdict'] == 'unknown':
+                undecided.append(r)
             if r['verdict'] == 'refuted':
                 f = finding_for(findings, pid, r)
                 if f is not None:
